@@ -191,6 +191,10 @@ func init() {
 		}
 		return ex.hostPort(ex.ipString(c.st, ip), port), true
 	}
+	in["(*net.IPNet).String"] = func(ex *Exec, c *callCtx) (Value, bool) {
+		ex.nErr++
+		return &StrV{Term: ex.tb.StrCons("slit", ex.tb.Int(int64(-ex.nErr)))}, true
+	}
 	in["(*net.UDPAddr).Network"] = func(ex *Exec, c *callCtx) (Value, bool) { return &StrV{S: "udp"}, true }
 	in["(*net.TCPAddr).Network"] = func(ex *Exec, c *callCtx) (Value, bool) { return &StrV{S: "tcp"}, true }
 	in["net.ResolveUDPAddr"] = func(ex *Exec, c *callCtx) (Value, bool) {
